@@ -4,6 +4,7 @@ CONSTANTS
   Vals = {"9", "1000", "1k", "NaN", "x"}
   Bases = {"N1", "N2"}
   XVals = {"", "s1", "s2"}
+  XYVals = {"", "t1"}
   GVals = {"", "4"}
   MenuIds = {"e1", "e2", "e3", "e4", "e5", "e6", "e7", "e8", "e9", "e10"}
   MaxExprs = 3
